@@ -100,15 +100,27 @@ pub fn gen_program(r: &mut Rng, with_double_claim: bool) -> Program {
     Program { clients, servers, apps }
 }
 
-struct Env {
+pub struct Env {
     sh: Sh,
-    handles: Vec<Handle>,
+    handles: std::cell::RefCell<Vec<Option<Handle>>>,
     versions: Vec<u32>,
     servers: Vec<(ServerCfg, Signal<Option<ServiceId>>)>,
     nonce: Rc<Cell<u64>>,
+    /// clients whose applications let go of everything at the next step boundary
+    abandon: std::cell::RefCell<Vec<bool>>,
+    /// run post-mortem operations at the end of every application task
+    post_mortem: bool,
 }
 
 impl Env {
+    fn h(&self, c: usize) -> Handle {
+        // a handle that was given up is replaced by the handle of... nothing: callers check
+        // `abandoned` first; this is only reached while the handle exists
+        self.handles.borrow()[c].clone().expect("handle present")
+    }
+    fn abandoned(&self, c: usize) -> bool {
+        self.abandon.borrow()[c] || self.handles.borrow()[c].is_none()
+    }
     fn nonce(&self) -> u64 {
         let n = self.nonce.get() + 1;
         self.nonce.set(n);
@@ -125,7 +137,7 @@ async fn get_proxy(env: &Env, me: usize, server: usize, cache: &mut Vec<Option<P
         return true;
     }
     let Some(id) = env.servers[server].1.wait().await else { return false };
-    match proxy(&env.sh, &env.handles[me], id).await {
+    match proxy(&env.sh, &env.h(me), id).await {
         Ok(p) => {
             cache[server] = Some(p);
             true
@@ -139,9 +151,15 @@ async fn get_proxy(env: &Env, me: usize, server: usize, cache: &mut Vec<Option<P
 
 async fn app(env: Rc<Env>, me: usize, name: String, steps: Vec<Step>) {
     let sh = env.sh.clone();
-    let h = env.handles[me].clone();
+    let h = env.h(me);
     let mut proxies: Vec<Option<Proxy>> = env.servers.iter().map(|_| None).collect();
     for (si, step) in steps.into_iter().enumerate() {
+        if env.abandoned(me) {
+            sh.op("abandon");
+            drop(proxies);
+            drop(h);
+            return;
+        }
         sh.log(format!("{} step {} {:?}", name, si, step));
         match step {
             Step::SyncClient => {
@@ -473,16 +491,58 @@ async fn app(env: Rc<Env>, me: usize, name: String, steps: Vec<Step>) {
             }
         }
     }
+    if env.post_mortem && !env.abandoned(me) {
+        post_mortem(&sh, &h, proxies.iter().flatten().next()).await;
+    }
     sh.op("drop:proxy");
     drop(proxies);
+}
+
+/// Operations started late in the life of a client (possibly after it has stopped): each one
+/// must resolve; once `Client::run` has returned they must all report the shutdown.
+pub async fn post_mortem(sh: &Sh, h: &Handle, p: Option<&Proxy>) {
+    let dead_before = h.sync_client().await == Err(aldrin::Error::Shutdown);
+    let mut results: Vec<(&str, bool)> = Vec::new();
+    sh.op("late:sync_client");
+    results.push(("sync_client", h.sync_client().await == Err(aldrin::Error::Shutdown)));
+    sh.op("late:sync_broker");
+    results.push(("sync_broker", h.sync_broker().await == Err(aldrin::Error::Shutdown)));
+    sh.op("late:create_object");
+    results.push(("create_object", matches!(h.create_object(ObjectUuid(Uuid::from_u128(0xC15_0000_0000 + results.len() as u128))).await, Err(aldrin::Error::Shutdown))));
+    sh.op("late:create_bus_listener");
+    results.push(("create_bus_listener", matches!(h.create_bus_listener().await, Err(aldrin::Error::Shutdown))));
+    sh.op("late:create_lifetime_scope");
+    results.push(("create_lifetime_scope", matches!(h.create_lifetime_scope().await, Err(aldrin::Error::Shutdown))));
+    sh.op("late:claim_sender");
+    results.push(("claim_sender", matches!(h.create_low_level_channel().claim_sender().await, Err(aldrin::Error::Shutdown))));
+    sh.op("late:version");
+    results.push(("version", matches!(h.version().await, Err(aldrin::Error::Shutdown))));
+    sh.op("late:find_object");
+    results.push(("find_object", matches!(h.find_bare_object(ObjectUuid(Uuid::from_u128(77))).await, Err(aldrin::Error::Shutdown))));
+    if let Some(p) = p {
+        sh.op("late:call");
+        results.push(("call", matches!(p.call(FN_ECHO, 1u64, None).await, Err(aldrin::Error::Shutdown))));
+        sh.op("late:subscribe");
+        results.push(("subscribe", matches!(p.subscribe(0).await, Err(aldrin::Error::Shutdown))));
+    }
+    if dead_before {
+        for (name, shut) in results {
+            if !shut {
+                sh.hard_fail(&format!("late-operation:{}", name), format!("{} started after the client had stopped did not report the shutdown", name));
+            }
+        }
+    }
 }
 
 #[allow(clippy::too_many_arguments)]
 async fn channel_step(env: &Rc<Env>, me: usize, peer: usize, sender_here: bool, capacity: u32, items: u32, consumer_stops_after: Option<u32>, producer_drops_after: Option<u32>, name: &str, si: usize) {
     let sh = env.sh.clone();
     let (prod_c, cons_c) = if sender_here { (me, peer) } else { (peer, me) };
-    let hp = env.handles[prod_c].clone();
-    let hc = env.handles[cons_c].clone();
+    if env.abandoned(prod_c) || env.abandoned(cons_c) {
+        return;
+    }
+    let hp = env.h(prod_c);
+    let hc = env.h(cons_c);
     let tag = env.nonce();
     let received: Rc<std::cell::RefCell<Vec<u32>>> = Rc::new(std::cell::RefCell::new(Vec::new()));
     let rec2 = received.clone();
@@ -497,7 +557,7 @@ async fn channel_step(env: &Rc<Env>, me: usize, peer: usize, sender_here: bool, 
             Err(e) => return unexpected(&sh, "channel.claim_sender", &e),
         };
         let unbound = unclaimed_receiver.unbind();
-        sh.spawn_app(&format!("{}-consumer{}", name, si), true, async move {
+        sh.spawn_app(&format!("{}-consumer{}@{}", name, si, cons_c), true, cons_c, async move {
             sh2.op("receiver.claim");
             match unbound.claim(hc, capacity).await {
                 Ok(mut rx) => consume(&sh2, &mut rx, tag, consumer_stops_after, &rec2).await,
@@ -518,7 +578,7 @@ async fn channel_step(env: &Rc<Env>, me: usize, peer: usize, sender_here: bool, 
         };
         let unbound = unclaimed_sender.unbind();
         let stops = consumer_stops_after.is_some();
-        sh.spawn_app(&format!("{}-producer{}", name, si), true, async move {
+        sh.spawn_app(&format!("{}-producer{}@{}", name, si, prod_c), true, prod_c, async move {
             sh2.op("sender.claim");
             match unbound.claim(hp).await {
                 Ok(mut tx) => produce(&sh2, &mut tx, tag, items, producer_drops_after, stops).await,
@@ -609,18 +669,21 @@ async fn consume(sh: &Sh, rx: &mut aldrin::low_level::Receiver, tag: u64, stops_
 /// the first claimer.
 async fn double_claim(env: &Rc<Env>, me: usize, peer1: usize, peer2: usize) {
     let sh = env.sh.clone();
-    let h = env.handles[me].clone();
+    if env.abandoned(me) || env.abandoned(peer1) || env.abandoned(peer2) {
+        return;
+    }
+    let h = env.h(me);
     sh.op("double_claim");
     let (unclaimed_sender, pending_receiver) = match h.create_low_level_channel().claim_receiver(4).await {
         Ok(x) => x,
         Err(e) => return unexpected(&sh, "channel.claim_receiver", &e),
     };
     let unbound = unclaimed_sender.unbind();
-    let mut tx = match unbound.claim(env.handles[peer1].clone()).await {
+    let mut tx = match unbound.claim(env.h(peer1)).await {
         Ok(tx) => tx,
         Err(e) => return unexpected(&sh, "sender.claim", &e),
     };
-    match unbound.claim(env.handles[peer2].clone()).await {
+    match unbound.claim(env.h(peer2)).await {
         Err(aldrin::Error::InvalidChannel) => {}
         Ok(_) => return sh.fail("double-claim-accepted", "the same channel end was claimed twice".into()),
         Err(e) => unexpected(&sh, "second-claim", &e),
@@ -647,14 +710,46 @@ pub struct RunReport {
     pub trace: u64,
     pub polls: u64,
     pub inconclusive: Option<String>,
+    /// ready transport operations at (client side, broker side) of the victim's pipe
+    pub victim_ops: (u64, u64),
+    pub victim_run: Option<String>,
+    pub victim_conn: Option<String>,
+    /// the fault / clean cause was actually reached
+    pub triggered: bool,
+}
+
+#[derive(Clone, Copy, Debug, PartialEq, Eq)]
+pub enum Clean {
+    /// Handle::shutdown
+    ShutdownRequested,
+    /// every handle, object, proxy ... of the client is dropped
+    LastHandleDropped,
+    /// BrokerHandle::shutdown
+    BrokerShutdown,
+    /// BrokerHandle::shutdown_connection
+    ForcedByBroker,
+}
+
+#[derive(Clone, Debug, Default)]
+pub struct RunOpts {
+    pub victim: Option<usize>,
+    /// (side of the victim's pipe, index of the ready transport operation, kind)
+    pub fault: Option<(usize, u64, crate::bus::pipe::FaultKind)>,
+    /// clean termination once the victim's client side has done this many transport operations
+    pub clean: Option<(u64, Clean)>,
 }
 
 /// Runs one program under one schedule seed.
 pub fn run_program(prog: &Program, sched_seed: u64, out: &mut Outcome) -> RunReport {
+    run_program_opts(prog, sched_seed, &RunOpts::default(), out)
+}
+
+pub fn run_program_opts(prog: &Program, sched_seed: u64, opts: &RunOpts, out: &mut Outcome) -> RunReport {
     let mut rng = Rng::new(sched_seed);
     let mut w = World::new();
     w.dx.spurious = (1, 40);
-    let mut rep = RunReport { fails: Vec::new(), log: Vec::new(), trace: 0, polls: 0, inconclusive: None };
+    let faulty = opts.victim.is_some();
+    let mut rep = RunReport { fails: Vec::new(), log: Vec::new(), trace: 0, polls: 0, inconclusive: None, victim_ops: (0, 0), victim_run: None, victim_conn: None, triggered: false };
     let mut versions = Vec::new();
     for (caps, minor) in &prog.clients {
         match w.add_client(*caps, *minor, &mut rng) {
@@ -665,26 +760,123 @@ pub fn run_program(prog: &Program, sched_seed: u64, out: &mut Outcome) -> RunRep
             }
         }
     }
-    let handles: Vec<Handle> = (0..prog.clients.len()).map(|c| w.handle(c)).collect();
+    w.sh.0.tolerant.set(faulty);
+    if let Some(v) = opts.victim {
+        w.clients[v].pipe.borrow_mut().ends[0].log_ops = true;
+        w.clients[v].pipe.borrow_mut().ends[1].log_ops = true;
+    }
+    if let (Some(v), Some((side, k, kind))) = (opts.victim, opts.fault) {
+        // operation indices count from the end of the handshake
+        let base = w.ops_done(v, side);
+        w.set_fault(v, side, base + k, kind);
+    }
+    let base_ops = opts.victim.map(|v| w.ops_done(v, CLIENT_SIDE)).unwrap_or(0);
+    let handles: Vec<Option<Handle>> = (0..prog.clients.len()).map(|c| Some(w.handle(c))).collect();
     let servers: Vec<(ServerCfg, Signal<Option<ServiceId>>)> = prog.servers.iter().map(|s| (s.clone(), Signal::new())).collect();
     for (i, (cfg, ready)) in servers.iter().enumerate() {
-        let f = server(w.sh.clone(), handles[cfg.client].clone(), cfg.clone(), ready.clone());
-        w.sh.spawn_app(&format!("server{}", i), true, f);
+        let f = server(w.sh.clone(), handles[cfg.client].clone().unwrap(), cfg.clone(), ready.clone());
+        w.sh.spawn_app(&format!("server{}@{}", i, cfg.client), true, cfg.client, f);
     }
-    let env = Rc::new(Env { sh: w.sh.clone(), handles: handles.clone(), versions, servers, nonce: Rc::new(Cell::new(0)) });
+    let env = Rc::new(Env {
+        sh: w.sh.clone(),
+        handles: std::cell::RefCell::new(handles),
+        versions,
+        servers,
+        nonce: Rc::new(Cell::new(0)),
+        abandon: std::cell::RefCell::new(vec![false; prog.clients.len()]),
+        post_mortem: faulty,
+    });
     for (i, (c, steps)) in prog.apps.iter().enumerate() {
         let name = format!("app{}@{}", i, c);
-        w.sh.spawn_app(&name, false, app(env.clone(), *c, name.clone(), steps.clone()));
+        w.sh.spawn_app(&name, false, *c, app(env.clone(), *c, name.clone(), steps.clone()));
     }
-    // phase 1: everything the applications wait for is answered by the broker or by a helper
-    let end1 = w.run(&mut rng, 400_000);
-    let stuck = w.unfinished(false);
+    // a task that only starts working once the victim's client has stopped
+    let dead: Signal<bool> = Signal::new();
+    if let Some(v) = opts.victim {
+        let (sh2, h2, d2) = (w.sh.clone(), w.handle(v), dead.clone());
+        w.sh.spawn_app(&format!("late@{}", v), true, v, async move {
+            d2.wait().await;
+            post_mortem(&sh2, &h2, None).await;
+        });
+    }
+    // phase 1
+    let mut triggered = opts.fault.is_some();
+    let mut clean_done = false;
+    let env2 = env.clone();
+    let dead2 = dead.clone();
+    let clean = opts.clean;
+    let victim = opts.victim;
+    let end1 = w.run_with(&mut rng, 600_000, &mut |w: &mut World| {
+        let Some(v) = victim else { return };
+        if let (Some((k, cause)), false) = (clean, clean_done) {
+            if w.ops_done(v, CLIENT_SIDE) >= base_ops + k {
+                clean_done = true;
+                triggered = true;
+                match cause {
+                    Clean::ShutdownRequested => {
+                        if let Some(h) = &w.clients[v].handle {
+                            h.shutdown();
+                        }
+                    }
+                    Clean::LastHandleDropped => {
+                        env2.abandon.borrow_mut()[v] = true;
+                        env2.handles.borrow_mut()[v] = None;
+                        w.clients[v].handle = None;
+                    }
+                    Clean::BrokerShutdown => {
+                        let mut bh = w.bh.clone();
+                        let _ = crate::bus::dx::now_or_never(async move { bh.shutdown().await });
+                    }
+                    Clean::ForcedByBroker => {
+                        let mut bh = w.bh.clone();
+                        let ch = w.clients[v].conn_handle.clone();
+                        let _ = crate::bus::dx::now_or_never(async move { bh.shutdown_connection(&ch).await });
+                    }
+                }
+            }
+        }
+        if w.dx.is_done(w.clients[v].run_task) && dead2.get().is_none() {
+            dead2.set(true);
+        }
+    });
+    rep.triggered = triggered;
+    if let Some(v) = opts.victim {
+        rep.victim_ops = (w.ops_done(v, CLIENT_SIDE) - base_ops, w.ops_done(v, BROKER_SIDE));
+        rep.victim_run = w.clients[v].run_result.borrow().clone();
+        rep.victim_conn = w.clients[v].conn_result.borrow().clone();
+        let p = w.clients[v].pipe.borrow();
+        let tail = |e: &crate::bus::pipe::EndState| String::from_utf8_lossy(&e.op_log[e.op_log.len().saturating_sub(24)..]).to_string();
+        w.sh.log(format!("victim pipe: client-side ops ..{} (inbox {}, closed {}), broker-side ops ..{} (inbox {}, closed {})", tail(&p.ends[0]), p.ends[0].inbox.len(), p.ends[0].closed, tail(&p.ends[1]), p.ends[1].inbox.len(), p.ends[1].closed));
+    }
     if end1 == RunEnd::Budget {
         rep.inconclusive = Some("poll budget used up in phase 1 (livelock or budget too small)".into());
-    } else if !stuck.is_empty() {
-        let log = w.sh.0.log.borrow();
-        let last: Vec<String> = stuck.iter().map(|s| log.iter().rev().find(|l| l.starts_with(s.as_str())).cloned().unwrap_or_else(|| s.clone())).collect();
-        rep.fails.push(("stuck".into(), format!("executor is quiescent but application tasks are still waiting: {:?}", last)));
+    } else if !faulty {
+        let stuck = w.unfinished(false);
+        if !stuck.is_empty() {
+            let log = w.sh.0.log.borrow();
+            let last: Vec<String> = stuck.iter().map(|s| log.iter().rev().find(|l| l.starts_with(s.as_str())).cloned().unwrap_or_else(|| s.clone())).collect();
+            rep.fails.push(("stuck".into(), format!("executor is quiescent but application tasks are still waiting: {:?}", last)));
+        }
+    } else if let Some(v) = opts.victim {
+        // fault-injection run: the victim's client must have stopped, and everything that works
+        // on its handles must have resolved
+        let fault_hit = opts.fault.map(|(side, _, _)| w.clients[v].pipe.borrow().ends[side].broken.is_some()).unwrap_or(false);
+        let stopped_expected = fault_hit || (opts.clean.is_some() && rep.triggered);
+        rep.triggered = stopped_expected;
+        if stopped_expected {
+            if !w.dx.is_done(w.clients[v].run_task) {
+                rep.fails.push(("run-does-not-return".into(), format!("Client::run of the stopped client has not returned at executor quiescence (opts {:?})", opts)));
+            }
+            let left = w.unfinished_of(v);
+            if !left.is_empty() {
+                let log = w.sh.0.log.borrow();
+                let last: Vec<String> = left.iter().map(|s| log.iter().rev().find(|l| l.starts_with(s.as_str())).cloned().unwrap_or_else(|| s.clone())).collect();
+                rep.fails.push(("pending-operation-never-resolves".into(), format!("the client has stopped but operations on its handles are still pending at quiescence: {:?}", last)));
+            }
+            if !w.dx.is_done(w.clients[v].conn_task) {
+                rep.fails.push(("connection-task-pending".into(), "the broker-side Connection::run has not returned although the client has stopped".into()));
+            }
+        }
     }
     // phase 2: all clients shut down
     drop(env);
@@ -693,12 +885,11 @@ pub fn run_program(prog: &Program, sched_seed: u64, out: &mut Outcome) -> RunRep
             h.shutdown();
         }
     }
-    drop(handles);
     let end2 = w.run(&mut rng, 400_000);
     if end2 == RunEnd::Budget && rep.inconclusive.is_none() {
         rep.inconclusive = Some("poll budget used up in phase 2".into());
     }
-    if end2 == RunEnd::Quiescent && rep.fails.is_empty() {
+    if end2 == RunEnd::Quiescent && rep.fails.is_empty() && !faulty {
         let left = w.unfinished(true);
         if !left.is_empty() {
             rep.fails.push(("stuck-after-shutdown".into(), format!("tasks still waiting after every client was shut down: {:?}", left)));
@@ -723,6 +914,26 @@ pub fn run_program(prog: &Program, sched_seed: u64, out: &mut Outcome) -> RunRep
         w.run(&mut rng, 50_000);
         if !w.dx.is_done(w.broker_task) && rep.fails.is_empty() {
             rep.fails.push(("idle-shutdown".into(), "all clients have shut down but the broker does not stop when idle".into()));
+        }
+    }
+    if faulty && end2 == RunEnd::Quiescent {
+        // whatever happened to the victim, the broker must end up empty and stop when idle
+        let clean_all = opts.clean.map(|(_, c)| c == Clean::BrokerShutdown).unwrap_or(false);
+        if !clean_all {
+            let mut bh = w.bh.clone();
+            let _ = crate::bus::dx::now_or_never(async move { bh.shutdown_idle().await });
+            w.run(&mut rng, 50_000);
+        }
+        if !w.dx.is_done(w.broker_task) {
+            rep.fails.push(("broker-does-not-stop".into(), "after the fault and the shutdown of every client the broker does not stop when idle".into()));
+        }
+        for (i, c) in w.clients.iter().enumerate() {
+            if !w.dx.is_done(c.run_task) {
+                rep.fails.push(("client-run-pending".into(), format!("Client::run of client {} did not return after shutdown", i)));
+            }
+            if !w.dx.is_done(c.conn_task) {
+                rep.fails.push(("connection-run-pending".into(), format!("Connection::run of client {} did not return", i)));
+            }
         }
     }
     for (task, p) in w.dx.panics.clone() {
